@@ -36,6 +36,11 @@ def gen_c08_graph(rng, bnodes):
     if subs and rng.random() < 0.5:
         for lex in rng.sample(['say \\"hi\\"@home', 'a^^b', 'x\\"^^<http://e.org/dt>', 'mail@host', 'see xsd:int', '# no comment', 'ends with \\\\'], 3):
             out.append((rng.choice(subs), EX + 'adv', L(lex)))
+    # language-tagged / typed literals containing characters that str.splitlines() (but no line-based reader) treats as line ends:
+    # a channel that cuts the statement there loses the tag (U+0085 and U+2028 are legal in XML 1.0, JSON and Turtle strings)
+    if subs and rng.random() < 0.5:
+        for ch in rng.sample(['\x85', '\u2028', '\u2029'], 2):
+            out.append((rng.choice(subs), EX + 'sep', L('first' + ch + 'second', lang='en') if rng.random() < 0.6 else L('2020' + ch + '01', XSD + 'date')))
     return out
 
 
